@@ -538,13 +538,57 @@ def evaluate(lines, impl, model, stats, ctx=None):
             stats["cases_with_zero_demand_cells"] += 1
         if len(case["regions"]) > len(set((r[2], r[3]) for r in case["regions"])):
             stats["cases_with_split_rows"] += 1
+        # magnitudes (measured on the C++ output): largest fine bin / column of fine bins / whole grid
+        g = tr["G"]
+        mxbin = max([v for col in g["cap"] for v in col] or [0])
+        mxcol = max([sum(col) for col in g["cap"]] or [0])
+        stats["max_fine_bin_capacity"] = max(stats["max_fine_bin_capacity"], mxbin)
+        stats["max_total_capacity"] = max(stats["max_total_capacity"], g["total"])
+        if mxbin >= 2 ** 31:
+            stats["cases_with_a_fine_bin_of_capacity_ge_2^31"] += 1
+        elif mxcol >= 2 ** 31:
+            stats["cases_with_a_bin_column_ge_2^31_and_every_fine_bin_below"] += 1
+        elif g["total"] >= 2 ** 31:
+            stats["cases_with_total_capacity_ge_2^31_and_every_column_below"] += 1
+        if g["total"] >= 2 ** 40:
+            stats["cases_with_total_capacity_ge_2^40"] += 1
         if multi and relational:
             nontriv.add(l)
     return bad_out, mism, nontriv
 
 
+LARGE_QUICK = 100     # cases of the large-magnitude stream in the quick tier
+ORDER_QUICK = 60      # groups (of four listings of the same set of rows / regions) of the order stream in the quick tier
+ORDER_NAMES = ("bottom-up", "top-down", "even rows then odd rows", "shuffled")
 NOFREE_QUICK = 120    # cases of the no-free-space stream in the quick tier
 SKIP_LIMIT = 0.01     # fraction of the history cases that may be skipped (GENERR / malformed / out-of-domain regions) before the run fails
+
+
+def grid_part(impl_line):
+    """the part of a harness trace that describes the grid: fine grid + hierarchy (G ...) and the state after construction
+    (every capacity of the coarsest view, the initial allocation), i.e. everything before the first op"""
+    return impl_line.partition(" ## ")[0].partition("| O ")[0].split()
+
+
+def order_oracle(groups, impl_of, stats):
+    """metamorphic oracle, no model needed: the rows / regions of a grid are a SET, so every listing of the same set must give the
+    grid of the bottom-up listing.  -> list of (case line, implementation line, why, extra replay fields)"""
+    out = []
+    for grp in groups:
+        base = impl_of[grp[0]]
+        gb = grid_part(base)
+        if len(set(grp)) > 1:
+            stats["order_groups_with_distinct_listings"] += 1
+        for name, l in list(zip(ORDER_NAMES, grp))[1:]:
+            stats["order_listings_compared_with_bottom_up"] += 1
+            ga = grid_part(impl_of[l])
+            if ga != gb:
+                k, a, b = first_diff(ga, gb)
+                out.append((l, impl_of[l][:3000],
+                            "the grid depends on the ORDER in which the rows / regions are listed: the listing '%s' gives a different grid "
+                            "than the bottom-up listing of the same set (token %d of the trace: '%s' vs bottom-up '%s')" % (name, k, a, b),
+                            {"order": name, "base_case": grp[0]}))
+    return out
 
 
 class Stats(dict):
@@ -584,16 +628,48 @@ def run(ctx):
             plan += [(s + 9000, 1000, "nofree"), (s, 15000, None), (s + 7000, 1500, "heavy"), (s, 20000, "split")]
     for (s, n, mode) in plan:
         lines += common.harness_gen(harness, [s, n] + ([mode] if mode else []))
+    # round 6: LARGE magnitudes (coordinates up to 2^22, bins up to ~2^42 units, grids up to ~2^46) and row / region ORDER (every set
+    # listed bottom-up, top-down, even-then-odd, shuffled); ordinary HR/HC lines: model tie + oracles as for every other case
+    large_lines, order_groups = [], []
+    for (s, nl, no) in ([(ctx.seed, LARGE_QUICK, ORDER_QUICK)] if ctx.quick else
+                        [(s, 1500, 800) for s in (ctx.seed, ctx.seed + 1000, ctx.seed + 2000)]):
+        large_lines += common.harness_gen(harness, [s + 11000, nl, "large"])
+        ol = common.harness_gen(harness, [s + 12000, no, "order"])
+        order_groups += [ol[k:k + 4] for k in range(0, len(ol) - 3, 4)]
+    new_lines = large_lines + [l for grp in order_groups for l in grp]
+    lines += new_lines
+    order_of = {}
+    for grp in order_groups:
+        for name, l in zip(ORDER_NAMES, grp):
+            order_of.setdefault(l, {"order": name, "base_case": grp[0]})
     stats = Stats()
     stats["spread_max_err_in_tol"] = 0.0
     impl, model = run_variant("plain", lines, driver, stats)
     bad_out, mism, nontriv = evaluate(lines, impl, model, stats, ctx)
+    stats["large_cases"], stats["order_groups"] = len(large_lines), len(order_groups)
+    impl_of = dict(zip(lines, impl))
+    for grp in order_groups:     # non-trivial group: at least two distinct listings and at least two bin rows in the fine grid
+        try:
+            tk = grid_part(impl_of[grp[0]])
+            if len(set(grp)) > 1 and int(tk[int(tk[1]) + 4]) >= 2:
+                stats["order_groups_nontrivial"] += 1
+        except (IndexError, ValueError):
+            pass
+    meta = order_oracle(order_groups, impl_of, stats)
+    stats["order_listings_differing_from_bottom_up"] = len(meta)
+    for (l, i, w, x) in meta:
+        hit = [k for k, b in enumerate(bad_out) if b[0] == l]
+        if hit:
+            bad_out[hit[0]] = (l, bad_out[hit[0]][1], bad_out[hit[0]][2] + "; ALSO " + w)
+        else:
+            bad_out.append((l, i, w))
     # the NDEBUG build (what the pinned build ships): the code's own check() compiled out.  Same cases (a prefix in the
     # quick tier) plus every case on which the assert-enabled build died, so that the report says what the state looks like
     h2 = common.build_harness("density", "ndebug")
     died = [l for (l, i, w) in bad_out if "aborted/crashed/threw" in w][:40]
     sub = (lines if not ctx.quick else lines[:ncorpus + NOFREE_QUICK + 1200])
-    sub = sub + [l for l in died if l not in set(sub)]
+    insub = set(sub)
+    sub = sub + [l for l in new_lines + died if l not in insub]
     pos = {l: k for k, l in enumerate(lines)}
     impl2, _, _ = common.run_both([h2, "run"], None, sub, timeout=1200, chunk=200)
     differ = [k for k in range(len(sub)) if impl2[k] != impl[pos[sub[k]]]]
@@ -624,9 +700,15 @@ def run(ctx):
                       % (nskip, nsub, 100 * SKIP_LIMIT, {k: v for k, v in stats.items() if k.startswith("skipped_")}),
                       {"broken": "harness/density.cpp case generation / checks/c16.py parse_case (cases skipped instead of judged)",
                        "skipped": nskip, "submitted": nsub, "limit_fraction": SKIP_LIMIT}, found_input=False)
+    # the same metamorphic comparison on the NDEBUG traces (the assert-enabled build may have died before printing a grid)
+    impl2_of = dict(zip(sub, impl2))
+    if all(l in impl2_of for grp in order_groups for l in grp):
+        known = set(l for (l, _, _) in bad_out)
+        bad_out += [(l, i, "[NDEBUG build] " + w) for (l, i, w, x) in order_oracle(order_groups, impl2_of, Stats()) if l not in known]
     for (l, i, w) in bad_out[:3]:
-        ctx.violation("density grid / cell-to-bin allocation of /repo violates C16: " + w,
-                      {"case": l, "format": "see the header of harness/density.cpp", "implementation_trace": i, "why": w})
+        rp = {"case": l, "format": "see the header of harness/density.cpp", "implementation_trace": i, "why": w}
+        rp.update(order_of.get(l, {}))    # order stream: which listing this is + the bottom-up listing of the same set
+        ctx.violation("density grid / cell-to-bin allocation of /repo violates C16: " + w, rp)
     if not bad_out:
         if mism:
             l, a, b, w = mism[0]
@@ -661,8 +743,21 @@ def run(ctx):
                 "must leave demands and allocation untouched.  non-trivial = at least one relational op (refine/run/improve/rebisect/reoptimize/transport) was "
                 "executed and some state had cells in >= 2 bins; SP cases (findConstrainedSplitPos, exact): non-trivial = >= 2 cells. "
                 "distinct = distinct case lines.  Histories on a placement area without extent skip the legalization passes "
-                "(they divide by the extent).",
-        "samples": [hcases[0][:400], hcases[len(hcases) // 2][:400], lines[-1][:200]] if hcases else [],
+                "(they divide by the extent)." + ("  LARGE stream (gen large, %d cases): region-built and circuit-built grids with coordinates "
+                "inside |v| <= 2^22 (extents up to 2^23), rows 2^14..2^19 high, 2..12 rows, bin sizes ext/12..ext/4 -- a fine bin "
+                "holds up to ~2^42 area units, a column / coarse view bin more, the grid up to ~2^46 (40 %% of the cases scaled down "
+                "by 2^4..2^8: bins of 2^22..2^34, where a bin still fits 32 bits and a column or view bin does not); movable cell "
+                "areas stay < 2^31 (int demands), fixed obstructions are as large as the rows; no demand scaling (op 13); same "
+                "histories, every view compared with the model over Z and the exact-int Python oracle; measured magnitudes in "
+                "distribution.max_* / cases_with_*_2^31.  ORDER stream (gen order, %d groups): 2..10 rows (HR: cut into 1..3 "
+                "pieces; HC: whole rows through Circuit::setRows + fromIspdCircuit, cut by fixed obstructions), bin sizes that "
+                "give several bin rows, each set listed bottom-up, top-down, even rows then odd rows, shuffled (pieces of a row "
+                "interleaved with other rows); every listing is tied to the model and the oracles AND its grid part (fine grid, "
+                "hierarchy, construction state) must equal the bottom-up listing's, token for token (metamorphic oracle, no "
+                "model; also on the NDEBUG build); non-trivial group = >= 2 distinct listings and >= 2 bin rows "
+                "(distribution.order_groups_nontrivial)." % (len(large_lines), len(order_groups))),
+        "samples": ([hcases[0][:400], hcases[len(hcases) // 2][:400], lines[-1][:200]] if hcases else []) +
+                   [l[:400] for l in large_lines[:1]] + [l[:300] for grp in order_groups[:1] for l in grp[:2]],
         "distribution": dict(stats),
         "skipped_cases": {"skipped": stats["generr"], "history_cases_submitted": stats["history_cases_submitted"], "limit_fraction": SKIP_LIMIT,
                           "rule": "a run with more skipped cases than the limit fails as 'harness broken'"},
@@ -696,6 +791,15 @@ def replay(ctx, path):
             print("VIOLATES C16:", w)
         for (_, a, b, w) in mism:
             print("model/implementation differ at", w, "\n  impl :", a, "\n  model:", b)
+        if r.get("base_case") and r["base_case"] != case:
+            # order stream: the bottom-up listing of the same set of rows / regions must give the same grid
+            impl0, _ = run_variant(variant, [r["base_case"]], driver, Stats())
+            print("order:", r.get("order"), "\nbase :", r["base_case"][:2000], "\nimpl of base:", impl0[0][:2000])
+            ga, gb = grid_part(impl[0]), grid_part(impl0[0])
+            if ga != gb:
+                k, a, b = first_diff(ga, gb)
+                print("VIOLATES C16: the grid depends on the order of the rows / regions: token %d '%s' vs bottom-up '%s'" % (k, a, b))
+                rc = 1
         if bad_out or mism:
             rc = 1
     return rc
